@@ -1,0 +1,21 @@
+//go:build verif
+
+package etcd
+
+import (
+	"io"
+
+	"github.com/go-kit/log"
+
+	"github.com/grafana/dskit/kv/codec"
+)
+
+// Hook for the verification harness in /verif (build tag "verif"). Add-only.
+
+// VerifNewInMemoryClientWithRetries is NewInMemoryClient with a chosen retry budget, so that the
+// exhaustion of the CAS retry loop is within reach of a bounded exploration.
+func VerifNewInMemoryClientWithRetries(codec codec.Codec, logger log.Logger, maxRetries int) (*Client, io.Closer) {
+	c, closer := NewInMemoryClient(codec, logger)
+	c.cfg.MaxRetries = maxRetries
+	return c, closer
+}
